@@ -991,6 +991,9 @@ class XandikosBackend(webdav.Backend):
         self._user_principals.add(posixpath.normpath(path))
 
     def create_collection(self, relpath):
+        # Resolve dot segments the same way get_resource() does, so that the
+        # new collection can never end up outside of the root directory.
+        relpath = posixpath.normpath(relpath)
         p = self._map_to_file_path(relpath)
         return Collection(self, relpath, TreeGitStore.create(p))
 
